@@ -5,6 +5,7 @@ import SuppModel.Extract.Model
 import SuppModel.Extract.Shape
 import SuppModel.Extract.LayoutPair
 import SuppModel.Extract.Rename
+import SuppModel.Extract.RenameAttr
 import SuppModel.Flow.Scoping
 
 namespace SuppModel.Drv.Extract
@@ -145,6 +146,28 @@ def handle (j : Json) : Json :=
           ("nameFixed", Json.bool (decide (pairPhi tr mt p = p)))]
       | ds => Json.mkObj [("ok", Json.bool false),
           ("why", Json.str s!"{ds.length} Name nodes differ in id between the two trees (exactly one expected)")]
+    | .error e, _, _ => errJson e
+    | _, .error e, _ => errJson e
+    | _, _, .error e => errJson e
+  | .ok "markAttrPair" =>   -- C12, attribute branch: the REAL marked tree is `markAttrTree` of the unmarked tree, and `markAttrOK`
+    match (j.getObjVal? "ast").bind astOf, (j.getObjVal? "marked").bind astOf, (j.getObjVal? "cursor").bind posOf with
+    | .ok t, .ok m, .ok cursor =>
+      let k := match j.getObjVal? "mark_len" with | .ok (Json.num n) => n.mantissa.toNat | _ => 13
+      match attrDiffs t m with
+      | [(some p, z, newAttr)] =>
+        let mt := markAttrTree t cursor p z newAttr k
+        let tr := t.renameAttr p z newAttr
+        let equal := m.beq mt
+        let qs := valueNamePos t p z
+        let S := pairS tr
+        Json.mkObj [("ok", Json.bool (equal && markAttrOK t cursor p z newAttr k)), ("p", posJson p), ("size", Json.num (z : Nat)),
+          ("newAttr", Json.str newAttr), ("equal", Json.bool equal), ("renQ", Json.bool (t.all (renAQ p z newAttr))),
+          ("layoutPair", Json.bool (layoutPairOK tr mt)),
+          ("queries", Json.arr (qs.map posJson).toArray),
+          ("queriesFixed", Json.bool (qs.all (fun q => decide (pairPhi tr mt q = q)))),
+          ("queriesOK", Json.bool (qs.all (fun q => S.all (fun l => Pos.lt q (pairPsi tr mt l) == Pos.lt q l))))]
+      | ds => Json.mkObj [("ok", Json.bool false),
+          ("why", Json.str s!"{ds.length} Attribute nodes differ in attr between the two trees (exactly one expected)")]
     | .error e, _, _ => errJson e
     | _, .error e, _ => errJson e
     | _, _, .error e => errJson e
